@@ -42,3 +42,35 @@ def replay(case):
     res = fn(case)
     fails = res[0] if isinstance(res, tuple) else res
     return fails
+
+
+def shrink(fails, **extra_key):
+    """long-input cases: replace every long sequence in the free-text detail by its length, head, tail and the first
+    positions where it differs from its expected counterpart; tag the verdict key"""
+    def short(v):
+        try:
+            n = len(v)
+        except TypeError:
+            return v
+        if isinstance(v, (str, dict)) or n <= 12:
+            return v
+        lst = list(v)
+        try:
+            return {"len": n, "head": [float(t) for t in lst[:4]], "tail": [float(t) for t in lst[-4:]]}
+        except (TypeError, ValueError):
+            return {"len": n}
+    for f in fails:
+        d = f.get("detail")
+        if isinstance(d, dict):
+            obs, exp = d.get("observed"), d.get("expected")
+            try:
+                if obs is not None and exp is not None and len(obs) == len(exp) and len(obs) > 12:
+                    diff = [i for i in range(len(obs)) if float(obs[i]) != float(exp[i])][:6]
+                    d["first_differences"] = [{"index": i, "observed": float(obs[i]), "expected": float(exp[i])} for i in diff]
+            except (TypeError, ValueError):
+                pass
+            for k in list(d):
+                d[k] = short(d[k])
+        if extra_key:
+            f["key"] = dict(f.get("key") or {}, **extra_key)
+    return fails
